@@ -117,7 +117,7 @@ def parse_table(lines):
     return header, rows, total
 
 
-def real_status(P, be, cached=False, cache_file=None):
+def real_status(P, be, cached=False, cache_file=None, short=False):
     import jug.subcommands.status as st
     o = jugenv.options()
     o.jugfile = P['path']
@@ -125,7 +125,7 @@ def real_status(P, be, cached=False, cache_file=None):
     o.status_cache = cached
     o.status_cache_file = cache_file or ':memory:'
     o.status_cache_clear = False
-    o.short = False
+    o.short = short
     out = []
     o.print_out = lambda *a: out.append(' '.join(str(x) for x in a))
     reset_jug()
@@ -133,8 +133,25 @@ def real_status(P, be, cached=False, cache_file=None):
         st.status.run(options=o)
     finally:
         reset_jug()
+    if short:
+        return None, None, parse_short(out), out
     header, rows, total = parse_table(out)
     return header, rows, total, out
+
+
+def parse_short(out):
+    """the one-line summary of `jug status --short` as (failed, waiting + ready, complete, active), or None when it is worded in a way this does not understand"""
+    import re
+    line = ' '.join(out).strip()
+    nums = [int(x) for x in re.findall(r'\d+', line)]
+    if re.search(r'all tasks complete', line, re.I) and len(nums) == 1:
+        return (0, 0, nums[0], 0)
+    if re.search(r'waiting to be run', line) and re.search(r'failed', line) and re.search(r'complete', line):
+        if re.search(r'none active', line) and len(nums) == 3:
+            return (nums[1], nums[0], nums[2], 0)
+        if len(nums) == 4:
+            return (nums[1], nums[0], nums[2], nums[3])
+    return None
 
 
 def real_graph_counts(P, be):
